@@ -20,7 +20,9 @@ REPO_SRC = os.path.join(REPO, "src")
 LEAN_DIR = os.path.join(VERIF, "lean")
 DRIVER = os.path.join(LEAN_DIR, ".lake", "build", "bin", "driver")
 RUN_DIR = os.path.join(VERIF, "run")
-EVIDENCE_DIR = os.path.join(VERIF, "evidence")
+# evidence/ is only written by runs against /repo itself; runs against a scratch copy (seeded-change
+# experiments, ABNF_REPO=<worktree>) write theirs under run/
+EVIDENCE_DIR = os.path.join(VERIF, "evidence") if REPO == "/repo" else os.path.join(VERIF, "run", "evidence-alt")
 PY = "/venv/bin/python" if os.path.exists("/venv/bin/python") else sys.executable
 
 ALLOWED_AXIOMS = {"propext", "Classical.choice", "Quot.sound"}
